@@ -241,7 +241,7 @@ func main() {
 		for j := 0; j < n; j++ {
 			k := keys[r.Intn(2)]
 			var a []string
-			switch r.Intn(22) {
+			switch r.Intn(24) {
 			case 0, 1:
 				a = []string{"set", k, "v", "ex", strconv.Itoa(1 + r.Intn(3))}
 			case 2:
@@ -269,7 +269,8 @@ func main() {
 				a = []string{"exists", k, "l"}
 			case 15:
 				a = []string{"append", k, "x"}
-			case 16:
+			case 16, 22, 23:
+				// a deadline moves with its key (and must still fire under the new name; the old name's must not)
 				a = []string{"rename", k, keys[r.Intn(2)]}
 			case 17:
 				a = [][]string{{"rpush", "l", "a"}, {"expire", "l", "1"}, {"llen", "l"}, {"lpop", "l"}, {"lrange", "l", "0", "-1"}}[r.Intn(5)]
@@ -278,12 +279,16 @@ func main() {
 			case 19:
 				a = []string{"del", k}
 			default:
-				p = append(p, step{sleep: time.Duration(r.Intn(1300)) * time.Millisecond})
+				p = append(p, step{sleep: time.Duration(1+r.Intn(1300)) * time.Millisecond})
 				continue
 			}
 			p = append(p, step{argv: a})
 		}
-		p = append(p, step{tick: true}, step{argv: []string{"get", "k"}}, step{argv: []string{"get", "j"}}, step{argv: []string{"keys", "*"}})
+		// let every deadline set above (<= 3 s) pass, then look first with commands that rely on the expiry having happened
+		// by itself (no lazy check of their own), then with the others
+		p = append(p, step{tick: true}, step{tick: true}, step{tick: true}, step{tick: true},
+			step{argv: []string{"get", "k"}}, step{argv: []string{"strlen", "j"}}, step{argv: []string{"mget", "k", "j"}}, step{argv: []string{"llen", "l"}},
+			step{argv: []string{"exists", "k", "j", "l"}}, step{argv: []string{"keys", "*"}})
 		progs = append(progs, p)
 	}
 
